@@ -53,8 +53,19 @@ def run(ctx, out):
                 calls.insert(1, "readcard")
                 n_limit += 1
             cases.append((cfg, calls, queues, None, None))
+    # two reservations; the commit of the first is REFUSED with an abort that names the second one's receipt number (and, for
+    # comparison, its own / FFFF / none): the token is closed, a repeated commit sends nothing, and the second token's commit
+    # still goes against its own receipt for its own unused amount
+    for pre in (2500, 10 ** 6):
+        for final in (0, 1000, pre, pre + 5):
+            for named in (42, 17, 0xffff, None):
+                cfg = G.default_cfg(max=2, amount=pre)
+                q = {"0622": [[P.status(receipt_no=17, result_code=0), P.completion()], [P.status(receipt_no=42, result_code=0), P.completion()]],
+                     "0623": [[P.pr_abort(0xb8, named)], [P.status(result_code=0, amount=final), P.completion()], [P.status(result_code=0, amount=5), P.completion()]]}
+                calls = ["new", f"begin:{tok('A')}", f"begin:{tok('B')}", f"commit:{tok('A')}:{final}", f"commit:{tok('A')}:{final}", f"commit:{tok('B')}:{max(0, final - 1)}"]
+                cases.append((cfg, calls, q, None, None))
     ops, impl = run_histories(ctx, out, cases, "begin + commit")
     out.rule = ("pre-authorisation amounts {0, 1, 99, 100, 2500, 10^6, 10^11, 10^12-1, random} x final amounts {0, 1, equal, off-by-one either side, 2^32, 2^62, 2^63-1, 2^63, 2^63+1, u64::MAX-1294, u64::MAX-1, u64::MAX, random}; "
-                "currencies SEK/GBP/EUR, CP437 tokens of length 0..60, receipt numbers 1..9999 (also reported twice with different values: the latest counts), status fields over their ranges / absent; in 30 % of the histories the card is read first and reports its own pre-authorisation limit (tag 1F0B) below / at / above the configured amount. The reservation and partial-reversal requests on the wire must equal, byte for byte, "
+                "currencies SEK/GBP/EUR, CP437 tokens of length 0..60, receipt numbers 1..9999 (also reported twice with different values: the latest counts), status fields over their ranges / absent; in 30 % of the histories the card is read first and reports its own pre-authorisation limit (tag 1F0B) below / at / above the configured amount. Also: two reservations, the first commit refused with an abort naming the OTHER reservation's receipt, then repeated. The reservation and partial-reversal requests on the wire must equal, byte for byte, "
                 "the packets assembled from the specification (amount = max(0, pre - final), currency, receipt, AC + token) and the summary must reproduce the reported fields. implementation = model = specification")
     out.samples = [ops[3][:400], {"op": ops[-1][:200], "impl": impl[-1][:300]}]
